@@ -18,6 +18,8 @@ answers:
   resetbm <bid> <attr> <level> <bmhex>         the board's header is (re)written and cache.ResetBoard(bid) rebuilds its BM cache
   mread|mlist <entry|fn> <bid> <ulevel> <over18> <uid> <friend>
         a read/list whose moderator facts come from the BM cache / BM string left by the resetbm history (ptt layer)
+  fexp <entry|fn> <bid> <ulevel> <over18> <listed-at-load> <listed-in-file-now> <aged>   friend list loaded, file changed, list aged
+  vmulti <ulevel> <over18> <tok>...            bbs.IsBoardsValidUser; one answer character per request entry (v f -)
   hold <slot> <fn> <bid> <ulevel> <over18> <uid> <bmcache> <friend> <named>   a list op whose returned list is kept (ptt layer)
   recheck <slot>                               what the kept list shows of its board now
   stress <n>                                   n concurrent listings each by a plain user and by SYSOP (bbs layer); "ok"
@@ -206,6 +208,31 @@ def showLoadedErr : String := "err:user"
 def stepFull (bbs : Bool) (f : Full) (ws : List String) : Full × String :=
   match ws with
   | ["reset"] => ({}, "ok")
+  | "vmulti" :: ulevel :: over18 :: toks =>
+      (match parseU32 ulevel, parseBool over18 with
+       | some ulevel, some over18 =>
+          if !bbs || toks.isEmpty || toks.length > 8 then (f, "bad-op") else
+          let u : UserView := { level := w ulevel, over18 := over18, uid := 2 }
+          let r : Relation := { bmUid := false, friend := false, namedBM := false }
+          let ans (t : String) : Option MultiAns :=
+            let viaBoard (b : BoardView) (matches_ : Bool) : MultiAns :=
+              match bbsRead false matches_ "IsBoardValidUser" { u := u, b := b, r := r, bidValid := true, precheck := false } with
+              | .allow => .valid
+              | .deny => .invalid
+              | _ => .none
+            if t = "2" || t = "4" then (getBoard f.core (if t = "2" then 2 else 4)).map (fun b => viaBoard b true)
+            else if t = "3" || t = "5" then some (viaBoard default true)
+            else if t = "x" then some (viaBoard default false)
+            else if t = "m" || t = "c" then some (viaBoard ((getBoard f.core 2).getD default) false)
+            else if t = "z" then some .none
+            else none
+          (match toks.mapM ans with
+           | some as =>
+              let f := toks.foldl (fun f t => if t = "2" then dropMod f 2 else if t = "4" then dropMod f 4 else f) f
+              let show1 : MultiAns → Char := fun a => match a with | .valid => 'v' | .invalid => 'f' | .none => '-'
+              (f, "res=" ++ String.ofList ((boardsValid id as).map show1))
+           | none => (f, "bad-op"))
+       | _, _ => (f, "bad-op"))
   | "users" :: rest =>
       (match parseUsers rest with
        | some t => ({ f with tbl := some t, bms := [], cache := [] }, "ok")
@@ -248,6 +275,18 @@ def stepFull (bbs : Bool) (f : Full) (ws : List String) : Full × String :=
                                   { level := w ulevel, over18 := over18, uid := uid } r
               ({ f with core := core' }, o)
            | _, _, _ => (f, "bad-op"))
+       | _, _, _, _, _, _ => (f, "bad-op"))
+  | ["fexp", entry, bid, ulevel, over18, atLoad, now, aged] =>
+      -- the friend list was loaded (reader on it or not), then the file changed, then (aged) the list expired (ptt layer)
+      (match parseI32 bid, parseU32 ulevel, parseBool over18, parseBool atLoad, parseBool now, parseBool aged with
+       | some bid, some ulevel, some over18, some atLoad, some now, some aged =>
+          let kind := if readNames.contains entry then "read" else if listNames.contains entry then "list" else ""
+          if bbs || kind = "" || !(bid = 2 ∨ bid = 4) || (getBoard f.core bid).isNone then (f, "bad-op") else
+          let f := dropMod f bid
+          let friend := (hbflFriend atLoad now aged).1
+          let (core', o) := doCall bbs f.core kind entry bid bid { level := w ulevel, over18 := over18, uid := 2 }
+                              { bmUid := false, friend := friend, namedBM := false }
+          ({ f with core := core' }, o)
        | _, _, _, _, _, _ => (f, "bad-op"))
   | ["hold", slot, fn, bid, ulevel, over18, uid, bmc, friend, named] =>
       -- a list op whose returned list the caller keeps (ptt layer)
